@@ -96,6 +96,19 @@ def wide_range_weights(ctx):
 
 
 def self_loops(ctx, drv):
+    real_graph_stream(ctx, drv, "self-loops", None, ctx.scale(120, 900))
+    # LARGE networks (thousands of nodes): size-triggered code paths (bulk sampling, vectorised updates) must keep the
+    # trajectories well-formed too
+    import networkx as nx
+
+    def big(r, seed):
+        n = r.choice([1500, 2500])
+        G = nx.gnp_random_graph(n, 4.0 / n, seed=seed) if r.random() < 0.5 else nx.barabasi_albert_graph(n, 2, seed=seed)
+        return G, []
+    real_graph_stream(ctx, drv, "large-networks", big, ctx.scale(6, 24))
+
+
+def real_graph_stream(ctx, drv, stream, make_graph, count):
     """contact networks WITH SELF-LOOPS (what `nx.configuration_model` produces; `Gillespie_SIS` carries an explicit
     special case for them): every simulator that takes a plain graph must still return a well-formed trajectory.  Real
     seeded generators; the Lean predicate `Pred.wellFormed` is evaluated on the returned arrays, and the arrays of the
@@ -106,14 +119,18 @@ def self_loops(ctx, drv):
     from allsims import KIND
     sims = ["Gillespie_SIS", "Gillespie_SIR", "fast_SIS", "fast_SIR", "basic_discrete_SIR", "basic_discrete_SIS"]
     reqs, metas = [], []
-    for k in range(ctx.scale(120, 900)):
+    for k in range(count):
         r = ctx.rng
         seed = r.randrange(10 ** 9)
         sim = sims[k % len(sims)]
-        n = r.randint(2, 8)
-        G = nx.gnp_random_graph(n, r.choice([0.3, 0.5, 0.9]), seed=seed)
-        loops = r.sample(list(G), r.randint(1, n))
-        G.add_edges_from((u, u) for u in loops)
+        if make_graph is None:
+            n = r.randint(2, 8)
+            G = nx.gnp_random_graph(n, r.choice([0.3, 0.5, 0.9]), seed=seed)
+            loops = r.sample(list(G), r.randint(1, n))
+            G.add_edges_from((u, u) for u in loops)
+        else:
+            G, loops = make_graph(r, seed)
+            n = G.order()
         weighted = sim in ("Gillespie_SIS", "Gillespie_SIR", "fast_SIS", "fast_SIR") and r.random() < 0.5
         kw = {}
         if weighted:
@@ -126,9 +143,9 @@ def self_loops(ctx, drv):
         tmin = r.choice([0, 0, 2])
         disc = KIND[sim].endswith("Disc")
         tmax = tmin + (r.choice([2, 4, 6]) if disc else r.choice([1, 3, 8]))
-        rep = dict(entry=sim, stream="self-loops", n=n, edges=[list(e) for e in G.edges()], loops=loops, weighted=weighted, infs=infs,
+        rep = dict(entry=sim, stream=stream, n=n, edges=[list(e) for e in G.edges()] if n <= 50 else G.number_of_edges(), loops=loops, weighted=weighted, infs=infs,
                    seed=seed, tmin=tmin, tmax=tmax)
-        ctx.count("self-loops:" + sim)
+        ctx.count(stream + ":" + sim)
 
         def call(full):
             random.seed(seed); np.random.seed(seed % 2 ** 32)
@@ -142,12 +159,12 @@ def self_loops(ctx, drv):
             fs = [ft] + [fD[x] for x in ("SIR" if KIND[sim].startswith("sir") else "SI")]
         except Exception as e:
             ctx.case(rep, nontrivial=False)
-            ctx.violation("%s raised %s on a graph with self-loops" % (sim, type(e).__name__), dict(rep, error=repr(e)[:200]))
+            ctx.violation("%s raised %s on a graph of the %s stream" % (sim, type(e).__name__, stream), dict(rep, error=repr(e)[:200]))
             continue
         times, cols = out[0], out[1:]
         if not all(np.isfinite(times)) or any(float(x) != int(x) for c in cols for x in c):
             ctx.case(rep, nontrivial=False)
-            ctx.violation("%s returned non-finite times or non-integer counts on a graph with self-loops" % sim, rep)
+            ctx.violation("%s returned non-finite times or non-integer counts (%s stream)" % (sim, stream), rep)
             continue
         # the node histories of the same seeded run: every entry after the first is one node making one move; the count of
         # infected nodes they imply at the end must be the array's
@@ -156,10 +173,10 @@ def self_loops(ctx, drv):
             hs = full.node_history(u)[1]
             hist_I += 1 if hs and hs[-1] == "I" else 0
         if not disc and int(fs[2][-1]) != hist_I:
-            ctx.violation("%s on a graph with self-loops: the last row counts %d infected nodes, the node histories of the same run end with %d"
-                          % (sim, int(fs[2][-1]), hist_I), dict(rep, last_I=int(fs[2][-1]), hist_I=hist_I))
+            ctx.violation("%s (%s stream): the last row counts %d infected nodes, the node histories of the same run end with %d"
+                          % (sim, stream, int(fs[2][-1]), hist_I), dict(rep, last_I=int(fs[2][-1]), hist_I=hist_I))
         if not disc and (list(map(float, fs[0])) != list(map(float, times)) or any(list(map(int, a)) != list(map(int, b)) for a, b in zip(fs[1:], cols))):
-            ctx.violation("%s on a graph with self-loops: arrays and full-data summary of the same seeded run differ" % sim, rep)
+            ctx.violation("%s (%s stream): arrays and full-data summary of the same seeded run differ" % (sim, stream), rep)
         reqs.append(dict(op="wf", kind=KIND[sim], N=n, tmin=str(tmin), tmax=str(tmax), extinct=False, collapsed=False,
                          times=[rs(float(x)) for x in times], cols=[[int(x) for x in c] for c in cols]))
         metas.append((rep, times, cols))
@@ -168,5 +185,5 @@ def self_loops(ctx, drv):
         if not resp.get("ok"):
             ctx.disagreement("wf-driver", dict(rep, resp=resp))
         elif not resp["holds"]:
-            ctx.violation("%s returned a trajectory that is not well-formed on a graph with self-loops" % rep["entry"],
+            ctx.violation("%s returned a trajectory that is not well-formed (%s stream)" % (rep["entry"], rep["stream"]),
                           dict(rep, times=rq["times"][:40], cols=[c[:40] for c in rq["cols"]], kind=rq["kind"]))
